@@ -5,6 +5,8 @@ from ..rules import rep_rules as R
 from ..rules import cache_rules as CA
 from ..rules import sibling_rules as SI
 from ..rules import misc_rules as MI
+from ..rules import numpy_rules as NPR
+from ..rules import cox_rules as CX
 from ..rules import fsa_rules as FS
 from ..rules.common import u1, n1
 
@@ -23,6 +25,10 @@ def run(ctx):
               "the cosine matrix becomes an object array and every Coxeter "
               "representation constructor raises TypeError")
     ctx.do(R.rule_dual)
+    ctx.do(CX.rule_diag1)
+    ctx.do(NPR.rule_nulldir1)
+    ctx.do(NPR.rule_cmpstmt1, ["geometry_tools/utils/core.py", "geometry_tools/coxeter.py"])
+    ctx.do(D.rule_astype1, ["geometry_tools/coxeter.py"])
     ctx.do(FS.rule_iter1, ["geometry_tools/coxeter.py"])
     ctx.do(n1, ["geometry_tools/coxeter.py"], lookup_rels=("geometry_tools/coxeter.py",))
     ctx.do(CA.rule_c2, "CoxeterGroup")
